@@ -307,61 +307,163 @@ func (e *exporter) words(ws []*syntax.Word, prev syntax.Pos) string {
 	return fmt.Sprintf("(WsCons %d %s %s)", n, e.word(ws[0]), e.words(ws[1:], ws[0].End()))
 }
 
-func (e *exporter) stmt(st *syntax.Stmt) string {
-	if st.Background || st.Coprocess || st.Disown || len(st.Redirs) > 0 {
+func redirOpCode(op syntax.RedirOperator) int {
+	return int(op) // the token value: the printer must keep the operator, so any injective code does
+}
+
+// delimiter text of a here-document and whether any part of it is quoted
+func hdocDelim(w *syntax.Word) (string, bool, bool) {
+	var sb strings.Builder
+	quoted := false
+	for _, p := range w.Parts {
+		switch p := p.(type) {
+		case *syntax.Lit:
+			if strings.Contains(p.Value, "\\") {
+				quoted = true
+			}
+			sb.WriteString(strings.ReplaceAll(p.Value, "\\", ""))
+		case *syntax.SglQuoted:
+			if p.Dollar {
+				return "", false, false
+			}
+			quoted = true
+			sb.WriteString(p.Value)
+		case *syntax.DblQuoted:
+			quoted = true
+			for _, q := range p.Parts {
+				l, ok := q.(*syntax.Lit)
+				if !ok {
+					return "", false, false
+				}
+				sb.WriteString(l.Value)
+			}
+		default:
+			return "", false, false
+		}
+	}
+	return sb.String(), quoted, true
+}
+
+func (e *exporter) redirs(rs []*syntax.Redirect) string {
+	if len(rs) == 0 {
+		return "RNil"
+	}
+	r := rs[0]
+	rest := e.redirs(rs[1:])
+	switch r.Op {
+	case syntax.Hdoc, syntax.DashHdoc:
+		if r.N != nil {
+			return e.fail()
+		}
+		delim, quoted, ok := hdocDelim(r.Word)
+		if !ok {
+			return e.fail()
+		}
+		body := "DNil"
+		if r.Hdoc != nil {
+			body = e.dq1(mergeLits(r.Hdoc.Parts))
+		}
+		return fmt.Sprintf("(RHdoc %s %s %s %s %s)", coqBool(r.Op == syntax.DashHdoc), coqBool(quoted), coqStr(delim), body, rest)
+	}
+	fd := "None"
+	if r.N != nil {
+		fd = "(Some " + coqStr(r.N.Value) + ")"
+	}
+	return fmt.Sprintf("(RFile %d %s %s %s)", redirOpCode(r.Op), fd, e.word(r.Word), rest)
+}
+
+func (e *exporter) assigns(as []*syntax.Assign) string {
+	if len(as) == 0 {
+		return "ANil"
+	}
+	a := as[0]
+	if a.Naked || a.Index != nil || a.Array != nil || a.Name == nil {
 		return e.fail()
 	}
-	c := e.cmd(st.Cmd)
+	v := "WNil"
+	if a.Value != nil {
+		v = e.word(a.Value)
+	}
+	return fmt.Sprintf("(ACons %s %s %s %s)", coqBool(a.Append), coqStr(a.Name.Value), v, e.assigns(as[1:]))
+}
+
+func (e *exporter) stmt(st *syntax.Stmt) string {
+	if st.Background || st.Coprocess || st.Disown {
+		return e.fail()
+	}
+	c := ""
+	if st.Cmd == nil {
+		c = "(Simple ANil WsNil)" // a statement made of redirections only
+	} else {
+		c = e.cmd(st.Cmd)
+	}
+	if len(st.Redirs) > 0 {
+		c = fmt.Sprintf("(Redirected %s %s)", c, e.redirs(st.Redirs))
+	}
 	if st.Negated {
 		return "(Not " + c + ")"
 	}
 	return c
 }
 
+func (e *exporter) citems(items []*syntax.CaseItem) string {
+	if len(items) == 0 {
+		return "CNil"
+	}
+	it := items[0]
+	if it.Op != syntax.Break || len(it.Patterns) == 0 {
+		return e.fail()
+	}
+	return fmt.Sprintf("(CCons %s %s %s)", e.words(it.Patterns, it.Patterns[0].Pos()), e.stmts(it.Stmts), e.citems(items[1:]))
+}
+
 func (e *exporter) cmd(c syntax.Command) string {
 	switch c := c.(type) {
 	case *syntax.CallExpr:
-		if len(c.Assigns) > 0 || len(c.Args) == 0 {
-			return e.fail()
+		ws := "WsNil"
+		if len(c.Args) > 0 {
+			ws = e.words(c.Args, c.Args[0].Pos())
 		}
-		return "(Simple " + e.words(c.Args, c.Args[0].Pos()) + ")"
+		return fmt.Sprintf("(Simple %s %s)", e.assigns(c.Assigns), ws)
 	case *syntax.BinaryCmd:
 		if c.Op != syntax.AndStmt && c.Op != syntax.OrStmt {
 			return e.fail()
 		}
 		return fmt.Sprintf("(AndOr %s %s %s)", coqBool(c.Op == syntax.AndStmt), e.stmt(c.X), e.stmt(c.Y))
 	case *syntax.Block:
-		if len(c.Last) > 0 {
-			return e.fail()
-		}
 		return "(Brace " + e.stmts(c.Stmts) + ")"
 	case *syntax.Subshell:
-		if len(c.Last) > 0 {
-			return e.fail()
-		}
 		return "(Subshell " + e.stmts(c.Stmts) + ")"
 	case *syntax.IfClause:
-		if len(c.CondLast) > 0 || len(c.ThenLast) > 0 || len(c.Last) > 0 {
-			return e.fail()
-		}
 		els := "SNil"
 		if c.Else != nil {
 			if len(c.Else.Cond) > 0 {
 				// elif: a nested if as the only statement of the else branch
 				els = fmt.Sprintf("(SCons 0 None true %s SNil)", e.cmd(c.Else))
 			} else {
-				if len(c.Else.ThenLast) > 0 || len(c.Else.Last) > 0 || len(c.Else.CondLast) > 0 {
-					return e.fail()
-				}
 				els = e.stmts(c.Else.Then)
 			}
 		}
 		return fmt.Sprintf("(If %s %s %s)", e.stmts(c.Cond), e.stmts(c.Then), els)
 	case *syntax.WhileClause:
-		if len(c.CondLast) > 0 || len(c.DoLast) > 0 {
+		return fmt.Sprintf("(While %s %s %s)", coqBool(c.Until), e.stmts(c.Cond), e.stmts(c.Do))
+	case *syntax.ForClause:
+		wi, ok := c.Loop.(*syntax.WordIter)
+		if !ok || c.Select || !wi.InPos.IsValid() || wi.Name == nil {
 			return e.fail()
 		}
-		return fmt.Sprintf("(While %s %s %s)", coqBool(c.Until), e.stmts(c.Cond), e.stmts(c.Do))
+		items := "WsNil"
+		if len(wi.Items) > 0 {
+			items = e.words(wi.Items, wi.Items[0].Pos())
+		}
+		return fmt.Sprintf("(For %s %s %s)", coqStr(wi.Name.Value), items, e.stmts(c.Do))
+	case *syntax.CaseClause:
+		return fmt.Sprintf("(Case %s %s)", e.word(c.Word), e.citems(c.Items))
+	case *syntax.FuncDecl:
+		if c.Name == nil || len(c.Names) > 0 {
+			return e.fail()
+		}
+		return fmt.Sprintf("(FuncDecl %s %s)", coqStr(c.Name.Value), e.stmt(c.Body))
 	}
 	return e.fail()
 }
@@ -454,14 +556,65 @@ func (f fgen) sp() string {
 	return " "
 }
 
+func (f fgen) redir() string {
+	r := f.g.R
+	sp := ""
+	if r.IntN(3) == 0 {
+		sp = " "
+	}
+	return hx.Pick(r, []string{">" + sp + "f1", ">>" + sp + "f2", "<" + sp + "f1", "2>&1", ">&2", "2>" + sp + "f3", ">" + sp + "\"$s\"", "<<<" + sp + f.word(0), ">|" + sp + "f4", "&>" + sp + "f5"})
+}
+
 func (f fgen) simple(d int) string {
 	r := f.g.R
 	n := 1 + r.IntN(3)
-	s := hx.Pick(r, []string{"echo", "printf '%s\\n'", "true", "false", ":", "echo"})
+	s := ""
+	// prefix assignments
+	for r.IntN(5) == 0 {
+		s += hx.Pick(r, []string{"x=", "y=", "s=", "PATH+=", "t+="}) + hx.Pick(r, []string{"", f.word(d), "1"}) + " "
+	}
+	if s != "" && r.IntN(3) == 0 {
+		return strings.TrimRight(s, " ") // standalone assignment(s)
+	}
+	if r.IntN(6) == 0 {
+		s += f.redir() + " " // a redirection before the command
+	}
+	s += hx.Pick(r, []string{"echo", "printf '%s\\n'", "true", "false", ":", "echo", "fn1", "fn2", "read"})
 	for i := 0; i < n; i++ {
 		s += f.sp() + f.word(d)
 	}
+	for r.IntN(4) == 0 {
+		s += " " + f.redir()
+	}
 	return s
+}
+
+func (f fgen) heredoc(indent string) string {
+	r := f.g.R
+	cmd := hx.Pick(r, []string{"cat", "read -r l", "while read -r l; do echo \"$l\"; done"})
+	dash := r.IntN(2) == 0
+	delim := hx.Pick(r, []string{"EOF", "E", "'EOF'", "\"EOF\"", "END", "\\EOF"})
+	end := strings.Trim(strings.ReplaceAll(delim, "\\", ""), "'\"")
+	op := "<<"
+	tabs := ""
+	if dash {
+		op = "<<-"
+		tabs = hx.Pick(r, []string{"", "\t", "\t\t", indent})
+	}
+	if r.IntN(3) == 0 {
+		op += " "
+	}
+	var body strings.Builder
+	for i, n := 0, r.IntN(4); i < n; i++ {
+		body.WriteString(tabs)
+		body.WriteString(hx.Pick(r, []string{"a $s b", "plain", "  spaced\tx", "${t} and `echo q`", "$(echo r) \\$s", "'q' \"r\"", "*", "", "x\\\\y"}))
+		body.WriteString("\n")
+	}
+	tail := ""
+	if r.IntN(4) == 0 {
+		tail = " " + f.redir()
+	}
+	return cmd + " " + op + delim + tail + "\n" + body.String() + tabs + end
 }
 
 func (f fgen) sep() string {
@@ -478,19 +631,54 @@ func (f fgen) sep() string {
 	return "\n"
 }
 
+// endsHdoc: the text ends with the closing delimiter of a here-document, after which only a
+// newline may follow.
+func endsHdoc(s string) bool {
+	i := strings.LastIndexByte(s, '\n')
+	last := strings.TrimLeft(s[i+1:], "\t")
+	return i >= 0 && (last == "EOF" || last == "E" || last == "END")
+}
+
 func (f fgen) list(d, n int) string {
-	var l []string
-	for i := 0; i < n; i++ {
-		l = append(l, f.stmt(d))
-	}
 	s := ""
-	for i, x := range l {
-		s += x
-		if i < len(l)-1 {
-			s += f.sep()
+	for i := 0; i < n; i++ {
+		s += f.stmt(d)
+		if i < n-1 {
+			if endsHdoc(s) {
+				s += "\n"
+			} else {
+				s += f.sep()
+			}
 		}
 	}
 	return s
+}
+
+// fixHdocEnds puts whatever the generator appended to a here-document's closing line
+// (`; fi`, ` # c`, `;;` ...) on the next line.
+func fixHdocEnds(src string) string {
+	lines := strings.Split(src, "\n")
+	for i, l := range lines {
+		body := strings.TrimLeft(l, "\t")
+		for _, d := range []string{"EOF", "END", "E"} {
+			if strings.HasPrefix(body, d) && len(body) > len(d) && strings.ContainsAny(body[len(d):len(d)+1], " ;)#") {
+				rest := strings.TrimLeft(body[len(d):], " ")
+				if !strings.HasPrefix(rest, ";;") {
+					rest = strings.TrimLeft(strings.TrimPrefix(rest, ";"), " ")
+				}
+				lines[i] = l[:len(l)-len(body)] + d + "\n" + rest
+				break
+			}
+		}
+	}
+	return strings.Join(lines, "\n")
+}
+
+func (f fgen) nlAfter(s string) string {
+	if endsHdoc(s) {
+		return "\n"
+	}
+	return f.nl()
 }
 
 func (f fgen) nl() string {
@@ -505,7 +693,7 @@ func (f fgen) stmt(d int) string {
 	if d <= 0 {
 		return f.simple(1)
 	}
-	switch r.IntN(10) {
+	switch r.IntN(16) {
 	case 0:
 		return "! " + f.simple(d)
 	case 1:
@@ -515,9 +703,23 @@ func (f fgen) stmt(d int) string {
 		}
 		return f.simple(d) + " " + op + " " + f.simple(d)
 	case 2:
-		return "{ " + f.list(d-1, 1+r.IntN(2)) + f.nl() + "}"
+		l := f.list(d-1, 1+r.IntN(2))
+		s := "{ " + l + f.nlAfter(l) + "}"
+		if r.IntN(3) == 0 {
+			s += " " + f.redir()
+		}
+		return s
 	case 3:
-		return "(" + f.list(d-1, 1+r.IntN(2)) + ")"
+		l := f.list(d-1, 1+r.IntN(2))
+		s := "(" + l
+		if endsHdoc(l) {
+			s += "\n"
+		}
+		s += ")"
+		if r.IntN(4) == 0 {
+			s += " " + f.redir()
+		}
+		return s
 	case 4:
 		s := "if " + f.list(d-1, 1) + f.nl() + "then" + f.sp() + f.list(d-1, 1+r.IntN(2))
 		if r.IntN(3) == 0 {
@@ -528,7 +730,48 @@ func (f fgen) stmt(d int) string {
 		}
 		return s + f.nl() + "fi"
 	case 5:
-		return hx.Pick(r, []string{"while", "until"}) + " " + hx.Pick(r, []string{"false", "! true", "[ x ]"}) + f.nl() + "do " + f.list(d-1, 1) + f.nl() + "done"
+		s := hx.Pick(r, []string{"while", "until"}) + " " + hx.Pick(r, []string{"false", "! true", "[ x ]"}) + f.nl() + "do " + f.list(d-1, 1) + f.nl() + "done"
+		if r.IntN(4) == 0 {
+			s += " " + f.redir()
+		}
+		return s
+	case 6, 7:
+		items := ""
+		for i, n := 0, r.IntN(4); i < n; i++ {
+			items += " " + f.word(d-1)
+		}
+		return "for " + hx.Pick(r, []string{"i", "x", "v_1"}) + " in" + items + f.nl() + "do" + f.sp() + f.list(d-1, 1+r.IntN(2)) + f.nl() + "done"
+	case 8, 9:
+		s := "case " + f.word(d-1) + " in"
+		for i, n := 0, r.IntN(4); i < n; i++ {
+			pat := hx.Pick(r, []string{"foo", "a|b", "'x y'", "\"$s\"", "hello", "1|2|3", "-n", "x1"})
+			if r.IntN(3) == 0 {
+				pat = "(" + pat
+			}
+			body := ""
+			if r.IntN(6) > 0 {
+				body = " " + f.list(d-1, 1+r.IntN(2))
+			}
+			s += "\n" + pat + ")" + body + hx.Pick(r, []string{" ;;", "\n;;", ";;"})
+		}
+		return s + "\nesac"
+	case 10:
+		name := hx.Pick(r, []string{"fn1", "fn2"})
+		body := "{ " + f.list(d-1, 1+r.IntN(2)) + f.nl() + "}"
+		if r.IntN(4) == 0 {
+			body = "(" + f.list(d-1, 1) + ")"
+		}
+		switch r.IntN(4) {
+		case 0:
+			return "function " + name + " " + body
+		case 1:
+			return "function " + name + "() " + body
+		case 2:
+			return name + " ( )\n" + body
+		}
+		return name + "() " + body
+	case 11, 12:
+		return f.heredoc(strings.Repeat("\t", 1+r.IntN(2)))
 	}
 	return f.simple(d)
 }
@@ -699,8 +942,7 @@ func main() {
 		emitted := 0
 		for i := 0; emitted < o.N && i < o.N*6; i++ {
 			g := fgen{hxbeh.NewGen(r, false, true)}
-			src := "s=hello\n" + g.list(2, 1+r.IntN(3)) + "\n"
-			src = strings.Replace(src, "s=hello\n", "", 1) // assignments are outside the fragment
+			src := fixHdocEnds(g.list(2, 1+r.IntN(3)) + "\n")
 			f, err := parse(src, true)
 			if err != nil {
 				continue
